@@ -660,6 +660,29 @@ func (c *v3Ctl) exec(step map[string]interface{}, args map[string]interface{}) s
 		h := vInt(step, "h")
 		args["h"] = h
 		c.l.SetHighWatermark(h)
+	case "SetHW2":
+		// two HW writers at the same time: both calls are started while the driver holds
+		// the log mutex (whatever they do first, they wait for it), then released together
+		h1, h2 := vInt(step, "h1"), vInt(step, "h2")
+		args["h1"], args["h2"] = h1, h2
+		var wg sync.WaitGroup
+		c.l.mu.Lock()
+		for _, h := range []int64{h1, h2} {
+			wg.Add(1)
+			go func(h int64) {
+				defer wg.Done()
+				c.l.SetHighWatermark(h)
+			}(h)
+		}
+		time.Sleep(300 * time.Microsecond)
+		c.l.mu.Unlock()
+		done := make(chan struct{})
+		go func() { wg.Wait(); close(done) }()
+		select {
+		case <-done:
+		case <-time.After(v3Deadline):
+			c.fail = "timeout in concurrent SetHighWatermark"
+		}
 	case "NewReader":
 		name, s := vStr(step, "r"), vInt(step, "s")
 		args["r"], args["s"] = name, s
